@@ -335,3 +335,127 @@ def spec_incfn(kind, content, args):
     if s == n and len(args) >= 1:
         return "EITHER", ""
     return "OK", "".join(units[s:s + ln])
+
+
+# ---------------------------------------------------------------- call sites of the inclusion functions
+# Program trees: an instruction set (with sub-rule parameters nested 1-2 levels, asm blocks and rule bodies that
+# call inclusion functions) defined in an included file in ANOTHER directory, user functions defined in a third
+# one, and one call of incbin / incbinstr / inchexstr per program written in a known file.  Every candidate
+# directory holds same-named data files with different content, so the directory the path was resolved against is
+# visible in the output.  Oracle: the path is resolved relative to the file that textually contains the call.
+CS_DIRS = ["", "cpu", "cpu/sub", "lib", "app", "app/x"]
+CS_LAYOUTS = [  # (main file, rules file, functions file, extra included source file)
+    ("main.asm", "cpu/rules.asm", "lib/fns.asm", "app/part.asm"),
+    ("main.asm", "cpu/sub/rules.asm", "cpu/fns.asm", "lib/part.asm"),
+    ("app/main.asm", "cpu/rules.asm", "lib/fns.asm", "app/x/part.asm"),
+    ("app/main.asm", "rules.asm", "app/x/fns.asm", "cpu/part.asm"),
+    ("app/x/main.asm", "app/rules.asm", "fns.asm", "lib/part.asm"),
+    ("cpu/main.asm", "lib/rules.asm", "app/fns.asm", "cpu/sub/part.asm"),
+]
+CS_FUNCS = ["incbin", "incbinstr", "inchexstr"]
+CS_DATA = {"incbin": "data.bin", "incbinstr": "data.txt", "inchexstr": "data.hex"}
+# where the call is written: kind -> (file role, statement in main/part, rule or fn text using CALL, output prefix)
+CS_KINDS = ["direct", "nested1_plain", "nested1", "nested2", "part_direct", "part_nested2", "rule_body", "rule_body_nested",
+            "asm_literal", "asm_literal_nested", "asm_param", "asm_param_nested", "fn_body", "fn_body_operand", "fn_body_nested",
+            "fn_body_from_rule", "fn_arg", "fn_arg_nested"]
+
+
+def cs_value(d):
+    return 0x41 + CS_DIRS.index(d)
+
+
+def cs_files(layout):
+    """data files in every candidate directory"""
+    out = {}
+    for d in CS_DIRS:
+        v = cs_value(d)
+        pre = d + "/" if d else ""
+        out[pre + "data.bin"] = bytes([v])
+        out[pre + "data.txt"] = (" ".join("{:08b}".format(v)[i:i + 4] for i in (0, 4)) + "\n").encode()
+        out[pre + "data.hex"] = ("%02x_\n" % v).encode()
+    return out
+
+
+def cs_paths(rng, containing):
+    """relative spellings to try from the file `containing`: (text, ) — the oracle decides what they name"""
+    d = containing.split("/")[:-1]
+    out = ["data", "./data", "sub/../data", ".\\data", "/data", "../data", "x/data", "../lib/data", "/cpu/data", "sub//data"]
+    if d:
+        out.append("../" * len(d) + "data")
+        out.append("../" * (len(d) + 1) + "data")
+    return out
+
+
+def cs_program(layout, kind, func, relpath):
+    """returns (files dict name->bytes/str, root, containing file, caller file, rule file, output prefix bytes)"""
+    main, rules, fns, part = layout
+    call = '%s("%s.%s")' % (func, relpath.replace("\\", "\\\\"), CS_DATA[func].split(".")[1])
+    rule_extra, fn_extra, main_stmt, part_stmt = "", "", "", ""
+    containing, prefix = main, []
+    caller = main        # the file whose context a wrong "caller-relative" resolution would use
+    if kind == "direct":
+        main_stmt, prefix = "raw " + call, [0x22]
+    elif kind == "nested1_plain":
+        main_stmt, prefix = "ld " + call, [0x11]
+    elif kind == "nested1":
+        main_stmt, prefix = "ld [" + call + "]", [0x11, 0xff]
+    elif kind == "nested2":
+        main_stmt, prefix = "ld [<" + call + ">]", [0x11, 0xff, 0xfe]
+    elif kind == "part_direct":
+        part_stmt, prefix, containing, caller = "raw " + call, [0x22], part, part
+    elif kind == "part_nested2":
+        part_stmt, prefix, containing, caller = "ld [<" + call + ">]", [0x11, 0xff, 0xfe], part, part
+    elif kind == "rule_body":
+        rule_extra, main_stmt, prefix, containing = "    here => 0x33 @ " + call, "here", [0x33], rules
+    elif kind == "rule_body_nested":
+        rule_extra = "    here {o: operand} => 0x33 @ o @ " + call
+        main_stmt, prefix, containing = "here [<7>]", [0x33, 0xff, 0xfe, 0x07], rules
+    elif kind == "asm_literal":
+        rule_extra, main_stmt, prefix, containing = "    viaasm => asm { raw " + call + " }", "viaasm", [0x22], rules
+    elif kind == "asm_literal_nested":
+        rule_extra, main_stmt, prefix, containing = "    viaasm => asm { ld [<" + call + ">] }", "viaasm", [0x11, 0xff, 0xfe], rules
+    elif kind == "asm_param":
+        rule_extra, main_stmt, prefix = "    viaasm {v: u8} => asm { raw {v} }", "viaasm " + call, [0x22]
+    elif kind == "asm_param_nested":
+        rule_extra, main_stmt, prefix = "    viaasm {v: u8} => asm { ld [<{v}>] }", "viaasm " + call, [0x11, 0xff, 0xfe]
+    elif kind == "fn_body":
+        fn_extra, main_stmt, prefix, containing = "#fn f() => " + call, "#d8 f()", [], fns
+    elif kind == "fn_body_operand":
+        fn_extra, main_stmt, prefix, containing = "#fn f() => " + call, "raw f()", [0x22], fns
+    elif kind == "fn_body_nested":
+        fn_extra, main_stmt, prefix, containing = "#fn f() => " + call, "ld [<f()>]", [0x11, 0xff, 0xfe], fns
+    elif kind == "fn_body_from_rule":
+        fn_extra, rule_extra = "#fn f() => " + call, "    callf => 0x44 @ f()"
+        main_stmt, prefix, containing, caller = "callf", [0x44], fns, rules
+    elif kind == "fn_arg":
+        fn_extra, main_stmt, prefix = "#fn g(x) => x", "#d8 g(" + call + ")", []
+    elif kind == "fn_arg_nested":
+        fn_extra, main_stmt, prefix = "#fn g(x) => x", "ld [g(" + call + ")]", [0x11, 0xff]
+    else:
+        raise ValueError(kind)
+    rules_src = ("#subruledef inner\n{\n    {v: u8} => v\n    <{v: u8}> => 0xfe @ v\n}\n"
+                 "#subruledef operand\n{\n    {v: u8} => v\n    [{i: inner}] => 0xff @ i\n}\n"
+                 "#ruledef\n{\n    ld {o: operand} => 0x11 @ o\n    raw {v: u8} => 0x22 @ v\n" + rule_extra + "\n}\n")
+
+    def inc(frm, to):
+        return '#include "%s"\n' % rel_path(frm, to)
+    main_src = inc(main, rules) + inc(main, fns) + "#d8 0x10\n" + (main_stmt + "\n" if main_stmt else "") + inc(main, part) + "#d8 0x1f\n"
+    files = dict(cs_files(layout))
+    files[main] = main_src
+    files[rules] = rules_src
+    files[fns] = "#fn unused_() => 0\n" + fn_extra + "\n"
+    files[part] = "#d8 0x18\n" + (part_stmt + "\n" if part_stmt else "")
+    if main_stmt:
+        frame = ([0x10] + prefix, [0x18, 0x1f])
+    else:
+        frame = ([0x10, 0x18] + prefix, [0x1f])
+    return files, main, containing, caller, rules, frame
+
+
+def cs_expected(files, func, containing, relpath):
+    """the value the call must produce: resolve relative to `containing`; None = the call must be an error"""
+    p = ref_navigate(containing, relpath + "." + CS_DATA[func].split(".")[1])
+    if p is None or p not in files:
+        return None
+    d = "/".join(p.split("/")[:-1])
+    return cs_value(d)
